@@ -1028,6 +1028,346 @@ fn c09_initial() {
     assert!(raw(&gs.hash) == INITIAL && gs.transposition_hash() == INITIAL);
 }
 // ===========================================================================
+// C06 / C07: the repetition filter.  One obligation per function, each against its callees'
+// contracts only (anything coarser does not fit in memory, DESIGN section 3).
+// ===========================================================================
+fn passing_like(step: usize) {
+    let side: bool = kani::any();
+    let pb = any_wf_board();
+    let st = any_status();
+    let (hash, init): (u64, u64) = (kani::any(), kani::any());
+    let gs = play_state_h(&pb, side, step, st, kani::any(), hash, init, 2);
+    let pbv: u64 = kani::any();
+    unsafe {
+        PBV = pbv;
+    }
+    oracle_reset();
+    let a = mv(any_sq(), any_direction());
+    kani::cover!(true);
+    let got = gs.is_passing_like_action(&a);
+    // hash of the position the step leads to, at step 0, with the mover still / no longer on move
+    let h0_same_side = hash ^ pbv ^ STEP_VALUES[step] ^ STEP_VALUES[0];
+    let h0_other_side = h0_same_side ^ PLAYER_TO_MOVE;
+    let want = h0_same_side == init || twice(h0_other_side);
+    assert!(got == want, "C06: a step is passing-like <=> result hashes like the turn's starting position, or the result with the other side to move already occurred twice (oracle)");
+    assert!(oracle_ok());
+    assert!(!gs.is_passing_like_action(&Action::Pass) && !gs.is_passing_like_action(&Action::Place(any_piece())), "C06: only steps are examined here (Pass is decided by can_pass)");
+}
+// @obl props=C06,C05,C07,C19 tier=quick kind=harness-contract mem=4 est=60
+// @fns GameState::is_passing_like_action PieceBoard::take_action Zobrist::move_piece step_value
+// @clause step 3 (the only step at which its callers use it), all boards/sides/statuses/hashes/oracles, every Move: result <=> (hash ^ delta ^ STEP[3] ^ STEP[0] == initial_hash_of_move) || TWICE(that ^ PLAYER_TO_MOVE); delta = piece_board_value(old, new) ghost (contract: Verus); Pass/Place => false
+#[kani::proof]
+#[kani::unwind(6)]
+#[kani::stub(crate::zobrist::piece_board_value, pbv_ghost)]
+#[kani::stub(crate::engine::hash_history_contains_hash_twice, twice_oracle)]
+fn c06_is_passing_like_3() {
+    passing_like(3);
+}
+
+// an uninterpreted predicate over actions ("is passing-like"), as the contract of is_passing_like_action seen by its callers
+pub static mut PL_MASK: [u64; 4] = [0; 4];
+pub static mut PL_PASS: bool = false;
+pub fn pl_abs(a: &Action) -> bool {
+    unsafe {
+        match a {
+            Action::Move(s, d) => bit(PL_MASK[dir_ord(*d) as usize], s.index() as u8),
+            Action::Pass => PL_PASS,
+            Action::Place(_) => false,
+        }
+    }
+}
+pub fn pl_abs_stub(_gs: &GameState, a: &Action) -> bool {
+    pl_abs(a)
+}
+pub fn pl_reset() {
+    unsafe {
+        PL_MASK = [kani::any(), kani::any(), kani::any(), kani::any()];
+        PL_PASS = kani::any();
+    }
+}
+pub fn any_action() -> Action {
+    if kani::any() {
+        Action::Pass
+    } else {
+        mv(any_sq(), any_direction())
+    }
+}
+fn filter_case(len: usize) {
+    let step: usize = kani::any();
+    kani::assume(step <= 3);
+    let trapped: bool = kani::any();
+    let pb = any_board_raw();
+    let gs = play_state_h(&pb, kani::any(), step, any_status(), trapped, kani::any(), kani::any(), 2);
+    pl_reset();
+    let src = [any_action(), any_action(), any_action()];
+    let mut v: Vec<Action> = Vec::with_capacity(4);
+    let mut k = 0;
+    while k < 3 {
+        if k < len {
+            v.push(src[k]);
+        }
+        k += 1;
+    }
+    kani::cover!(step == 3 && !trapped);
+    let copy_for_query: Vec<Action> = v.clone();
+    gs.remove_passing_like_actions(&mut v);
+    let active = step == 3 && !trapped;
+    // expected: the elements a with !(active && pl(a)), in the original order
+    let mut j = 0;
+    let mut ok = true;
+    k = 0;
+    while k < 3 {
+        if k < len && !(active && pl_abs(&src[k])) {
+            ok = ok && j < v.len() && v[j] == src[k];
+            j += 1;
+        }
+        k += 1;
+    }
+    assert!(ok && j == v.len(), "C06: the filter removes exactly the passing-like actions, keeps the order, and only on the fourth step of a capture-free turn");
+    // C07: the short-circuit twin agrees with the filter on the same list
+    let h = gs.has_non_passing_like_action(copy_for_query);
+    assert!(h == (v.len() > 0), "C07: has_non_passing_like_action(list) <=> the filtered list is non-empty");
+}
+// @obl props=C06,C07,C19 tier=quick kind=harness-contract mem=6 est=120 timeout=1500
+// @fns GameState::remove_passing_like_actions GameState::has_non_passing_like_action
+// @clause lists of length 0..3 of symbolic actions (A1 generalises over the length), is_passing_like_action abstracted to an uninterpreted predicate P (its contract: c06_is_passing_like_3), all steps / capture flags: the filter keeps exactly [a | !(step==3 && !captured_this_turn && P(a))] in order; has_non_passing_like_action(list) <=> that filtered list is non-empty
+#[kani::proof]
+#[kani::unwind(6)]
+#[kani::stub(GameState::is_passing_like_action, pl_abs_stub)]
+fn c06_filter() {
+    filter_case(0);
+    filter_case(1);
+    filter_case(2);
+    filter_case(3);
+}
+// ===========================================================================
+// valid_actions_ / has_move / is_terminal: the composition layer.  The four generators are
+// replaced by abstractions of their contracts: each appends a harness-chosen (symbolic) list of
+// 0..2 actions; is_passing_like_action is the uninterpreted predicate P; can_pass is a ghost
+// function of its flag.  What is then proved about the real bodies is their own logic.
+// ===========================================================================
+pub static mut G_PUSH: Option<Action> = None;
+pub static mut G_PULL: Option<Action> = None;
+pub static mut G_STEP: Option<Action> = None;
+pub static mut G_COMP: Option<Action> = None;
+pub static mut CP_RULES: bool = false; // can_pass(false)
+pub static mut CP_REP: bool = false; // can_pass(true)
+// The abstractions never WRITE ghost state (measured: writes to `static mut` inside a stub, between several
+// Vec lifetimes, make CBMC report spurious pointer failures inside Vec).  Call order is observed through the
+// order of the produced list; the filter abstraction leaves a marker at the end of the list it was given.
+pub const FILTER_MARK: Action = Action::Place(Piece::Rabbit);
+pub fn q_filter(_gs: &GameState, v: &mut Vec<Action>) {
+    v.push(FILTER_MARK);
+}
+/// contract c01_gen_pull / c01_gen_pull_dedup: appends a completion only if it is not already listed
+pub fn q_pull_dedup(_gs: &GameState, v: &mut Vec<Action>, _pb: &PieceBoardState) {
+    if let Some(a) = unsafe { G_PULL } {
+        let mut listed = false;
+        let mut k = 0;
+        while k < 2 {
+            if k < v.len() && v[k] == a {
+                listed = true;
+            }
+            k += 1;
+        }
+        if !listed {
+            v.push(a);
+        }
+    }
+}
+pub fn q_push(_gs: &GameState, v: &mut Vec<Action>, _pb: &PieceBoardState) {
+    if let Some(a) = unsafe { G_PUSH } {
+        v.push(a);
+    }
+}
+pub fn q_pull(_gs: &GameState, v: &mut Vec<Action>, _pb: &PieceBoardState) {
+    if let Some(a) = unsafe { G_PULL } {
+        v.push(a); // has_move hands every generator a fresh list, so nothing can be listed already
+    }
+}
+pub fn q_steps(_gs: &GameState, v: &mut Vec<Action>, _pb: &PieceBoardState) {
+    if let Some(a) = unsafe { G_STEP } {
+        v.push(a);
+    }
+}
+pub fn q_completion(_gs: &GameState, _pb: &PieceBoardState) -> Vec<Action> {
+    let mut v = Vec::with_capacity(4);
+    if let Some(a) = unsafe { G_COMP } {
+        v.push(a);
+    }
+    v
+}
+pub fn abs_can_pass(_gs: &GameState, check: bool) -> bool {
+    unsafe {
+        if check {
+            CP_REP
+        } else {
+            CP_RULES
+        }
+    }
+}
+fn any_opt_move() -> Option<Action> {
+    if kani::any() {
+        Some(mv(any_sq(), any_direction()))
+    } else {
+        None
+    }
+}
+fn g_reset() {
+    unsafe {
+        G_PUSH = any_opt_move();
+        G_PULL = any_opt_move();
+        G_STEP = any_opt_move();
+        G_COMP = any_opt_move();
+        CP_RULES = kani::any();
+        CP_REP = kani::any();
+        // the generators' own contracts: push starts / pull completions (enemy piece on the source square) and own
+        // steps (own piece) are disjoint; a pending push has at least one completion (c01_gen_push_completion)
+        kani::assume(G_STEP.is_none() || (G_PUSH != G_STEP && G_PULL != G_STEP));
+        kani::assume(G_COMP.is_some());
+    }
+}
+/// expected rule-only list, given the abstract generator outputs
+fn expected_rule_list(pending: bool, pass: bool) -> Vec<Action> {
+    let mut e: Vec<Action> = Vec::with_capacity(8);
+    unsafe {
+        if pending {
+            if let Some(a) = G_COMP {
+                e.push(a);
+            }
+        } else {
+            if let Some(a) = G_PUSH {
+                e.push(a);
+            }
+            if let Some(a) = G_PULL {
+                if G_PUSH != Some(a) {
+                    e.push(a);
+                }
+            }
+            if let Some(a) = G_STEP {
+                e.push(a);
+            }
+            if pass {
+                e.push(Action::Pass);
+            }
+        }
+    }
+    e
+}
+fn lists_equal(a: &[Action], b: &[Action]) -> bool {
+    if a.len() != b.len() {
+        return false;
+    }
+    let mut ok = true;
+    let mut k = 0;
+    while k < 4 {
+        if k < a.len() {
+            ok = ok && a[k] == b[k];
+        }
+        k += 1;
+    }
+    if a.len() == 5 {
+        ok = ok && a[4] == b[4];
+    }
+    ok && a.len() <= 5
+}
+fn no_dups(a: &[Action]) -> bool {
+    let mut ok = true;
+    let mut k = 0;
+    while k < 4 {
+        let mut l = 0;
+        while l < 4 {
+            if k < l && l < a.len() {
+                ok = ok && a[k] != a[l];
+            }
+            l += 1;
+        }
+        k += 1;
+    }
+    ok
+}
+
+// @obl props=C01,C06,C19 tier=quick kind=harness-contract mem=8 est=200 timeout=1800
+// @fns GameState::valid_actions_ GameState::valid_actions_no_rep GameState::valid_actions
+// @clause assembly, fully modular: the four generators, can_pass and remove_passing_like_actions are replaced by abstractions of their contracts (0..1 symbolic action each, disjointness as proved; the filter abstraction appends a marker to the list it is given); check_repititions symbolic, all statuses: result == completions when a push is pending, else push starts ++ pull completions not already listed ++ own steps ++ [Pass iff can_pass(check_repititions)], in this order, followed by the filter marker exactly when check_repititions (filter invoked once, last, on the whole list); no action listed twice
+#[kani::proof]
+#[kani::unwind(8)]
+#[kani::stub(GameState::extend_with_push_piece_actions, q_push)]
+#[kani::stub(GameState::extend_with_pull_piece_actions, q_pull_dedup)]
+#[kani::stub(GameState::extend_with_valid_curr_player_piece_moves, q_steps)]
+#[kani::stub(GameState::must_complete_push_actions, q_completion)]
+#[kani::stub(GameState::can_pass, abs_can_pass)]
+#[kani::stub(GameState::remove_passing_like_actions, q_filter)]
+fn c01_assembly() {
+    let pb = any_board_raw();
+    let st = any_status();
+    let gs = play_state_h(&pb, kani::any(), 1, st, kani::any(), kani::any(), kani::any(), 2);
+    g_reset();
+    let check: bool = kani::any();
+    let pending = matches!(st, PushPullState::MustCompletePush(_, _));
+    kani::cover!(pending && check);
+    kani::cover!(!pending && !check && unsafe { G_PULL.is_some() && G_PULL == G_PUSH }, "a pull completion that is also a push start");
+    kani::cover!(!pending && unsafe { G_PUSH.is_some() && G_PULL.is_some() && G_STEP.is_some() && G_PUSH != G_PULL }, "all three generators contribute");
+    let got = gs.valid_actions_(check);
+    let mut want = expected_rule_list(pending, unsafe { if check { CP_REP } else { CP_RULES } });
+    assert!(no_dups(&want), "C01: no action is listed twice");
+    if check {
+        want.push(FILTER_MARK); // the filter ran once, last, on the whole list
+    }
+    assert!(lists_equal(&got, &want), "C01/C06: list == completions | push ++ pull(dedup) ++ steps ++ [Pass]; filter applied last, exactly when repetition checking is on");
+}
+
+fn survives(active: bool, a: Option<Action>) -> bool {
+    match a {
+        Some(x) => !(active && pl_abs(&x)),
+        None => false,
+    }
+}
+fn has_move_case(step: usize) {
+    let pb = any_board_raw();
+    let st = any_status();
+    let side: bool = kani::any();
+    let trapped: bool = kani::any();
+    let gs = play_state_h(&pb, side, step, st, trapped, kani::any(), kani::any(), 2);
+    g_reset();
+    pl_reset();
+    let active = step == 3 && !trapped;
+    let pending = matches!(st, PushPullState::MustCompletePush(_, _));
+    kani::cover!(pending);
+    let hm = gs.has_move(&pb);
+    let some_action = unsafe {
+        if pending {
+            survives(active, G_COMP)
+        } else {
+            CP_REP || survives(active, G_STEP) || survives(active, G_PULL) || survives(active, G_PUSH)
+        }
+    };
+    kani::cover!(!some_action && !pending);
+    assert!(hm.is_none() == some_action, "C07: has_move reports a loss exactly when no offered action exists");
+    if let Some(t) = hm {
+        assert!(t == winner(!side), "C07: ... and it is a loss for the player on move");
+    }
+}
+// @obl props=C07,C04,C19 tier=quick kind=harness-contract mem=8 est=200 timeout=1800
+// @fns GameState::has_move GameState::has_non_passing_like_action
+// @clause has_move's own logic, modular (generators and can_pass replaced by abstractions of their contracts; is_passing_like_action = uninterpreted P; steps 1 and 3, capture flag symbolic, all statuses, both sides): result is None <=> (push pending ? some completion survives the filter : can_pass(true) || some own step survives || some pull completion survives || some push start survives) -- exactly "valid_actions() is non-empty" by c01_assembly + c06_filter; otherwise Some(win for the opponent of the player on move); in setup: None
+#[kani::proof]
+#[kani::unwind(8)]
+#[kani::stub(GameState::extend_with_push_piece_actions, q_push)]
+#[kani::stub(GameState::extend_with_pull_piece_actions, q_pull)]
+#[kani::stub(GameState::extend_with_valid_curr_player_piece_moves, q_steps)]
+#[kani::stub(GameState::must_complete_push_actions, q_completion)]
+#[kani::stub(GameState::can_pass, abs_can_pass)]
+#[kani::stub(GameState::is_passing_like_action, pl_abs_stub)]
+fn c07_has_move() {
+    has_move_case(3);
+    has_move_case(1);
+    let pb = any_board_raw();
+    let setup = GameState::new(kani::any(), 1, Phase::PlacePhase, PieceBoard(pb.clone()), zob(kani::any()));
+    assert!(setup.has_move(&pb).is_none(), "C07: setup always has a move");
+}
+
+// ===========================================================================
 // meta: the canary.  An `ensures` that is false on the real supported_pieces; it must FAIL.
 // If it ever passes, the pipeline is not checking anything and the whole run is UNDECIDED.
 // ===========================================================================
